@@ -1440,6 +1440,25 @@ def run_deriv_case(case, H, limit_s=5.0):
 
 
 # ---------------------------------------------------------------- normalize: value and idempotence
+def has_repeated_base(e):
+    """Some product / quotient in e mentions the same base twice (x * x, x ^ a * x ^ b, x / (x * x))."""
+    def factors(t, acc):
+        if t.ty == L.OP and t.op in ('*', '/') and len(t.args) == 2:
+            factors(t.args[0], acc)
+            factors(t.args[1], acc)
+        elif t.ty == L.OP and t.op == '^':
+            acc.append(str(t.args[0]))
+        elif t.ty != L.CONST:
+            acc.append(str(t))
+    for t in L.subterms(e):
+        if t.ty == L.OP and t.op in ('*', '/') and len(t.args) == 2:
+            acc = []
+            factors(t, acc)
+            if len(acc) != len(set(acc)):
+                return True
+    return False
+
+
 def run_normalize_case(case, H, limit_s=5.0):
     e = P(str(case.get('e')))
     conds = [P(str(c)) for c in case.get('conds', [])]
@@ -1460,8 +1479,9 @@ def run_normalize_case(case, H, limit_s=5.0):
         return
     check_roundtrip(n1, H, case, 'result-of-normalize')
     if n1 != n2:
-        H.violation('normalize:not-idempotent:%s' % head_feature(minimal_failing_subterm(
-            e, lambda t: poly.normalize(poly.normalize(copy.deepcopy(t), cd), cd) != poly.normalize(copy.deepcopy(t), cd))), case,
+        H.violation('normalize:not-idempotent:%s' % ('repeated-base-in-product' if has_repeated_base(n1) else head_feature(
+            minimal_failing_subterm(e, lambda t: poly.normalize(poly.normalize(copy.deepcopy(t), cd), cd) !=
+                                    poly.normalize(copy.deepcopy(t), cd)))), case,
                     'normalize(%s) = %s but normalizing again gives %s' % (e, n1, n2))
     cmpo = Comparator({}, conds, {}, int_variables([e] + conds), limit_s=limit_s)
     res = cmpo.compare(e, n1, seeds, explicit_draws=case.get('draws'))
